@@ -190,7 +190,8 @@ func c12Of(w *mon.W, idx int) {
 	useN := variant != 0
 	switch variant {
 	case 1:
-		nArg = -5
+		// any negative size means "no minimum": small ones, those around -64 and -128, the smallest int32
+		nArg = int32(r.Pick(-5, -1, -63, -64, -65, -126, -127, -128, -129, -1000, -1<<31))
 	case 2:
 		nArg = 0
 	case 3:
